@@ -45,6 +45,9 @@ mod session;
 mod tracker_client;
 mod tracker_resp;
 mod utils;
+#[cfg(feature = "verif")]
+#[allow(missing_docs)]
+pub mod verif;
 
 pub use crate::error::Error;
 
